@@ -19,10 +19,10 @@ CHECKS = {
    text='All 1.1 million strings of length <= 6 over one representative per character class are given to the five validators twice (in both orders, so cross-validator caches show) and compared with recognisers written from the specification; the 255-byte boundary; every string of length <= 3 (4 thorough) in each of the 11 name-carrying constructor slots with the wire content re-read by the reference parser.',
    note='Character classes are represented by one member each; longer names only at the length boundary. Trusts mcx/ref/grammar.py.'),
  'C03': dict(engine=E1, ref='DESIGN.md 3/C03', technique='bounded-exhaustive enumeration of message descriptions; every message checked by an independent parser and re-parsed; foreign encodings enumerated over byte order, header-field permutations and unknown field positions',
-   text='All combinations of message type, optional header fields, flag bits, 30 bodies covering every alignment and every header padding 0..7 are constructed; an independent parser checks well-formedness (typed fields, flags byte, padding, body length, fresh serial) and parseMessage must recover everything, both from its own bytes and from the bytes a conforming foreign encoder produces (both byte orders, permuted fields, unknown field codes at every position); a parsed message serialised again must be the same well-formed message; every ordered triple of descriptor-carrying calls built in one process. The 2**27 limit is probed with real messages at -1/0/+1/+8 bytes for every header padding.',
+   text='All combinations of message type, optional header fields, flag bits, 30 bodies covering every alignment and every header padding 0..7 are constructed; an independent parser checks well-formedness (typed fields, flags byte, padding, body length, fresh serial) and parseMessage must recover everything, both from its own bytes and from the bytes a conforming foreign encoder produces (both byte orders, permuted fields, unknown field codes at every position); a parsed message serialised again must be the same well-formed message; every ordered triple of descriptor-carrying calls built in one process. The 2**27 limit is probed with real messages at -1/0/+1/+8 bytes for every header padding. Every name slot of every message type (with and without the optional fields) is given 6-13 strings the reference grammar rejects: construction must fail with a marshalling error.',
    note='Bodies are a fixed list of 30 (the full value space is C01/C02). Trusts mcx/refcodec message encoder/parser.'),
  'C05': dict(engine=E1, ref='DESIGN.md 3/C05', technique='exhaustive mutation enumeration (truncations, byte substitutions, lying length words, all short hostile signatures) under a deterministic interpreter-step budget',
-   text='Every truncation, every position x substitution set, every aligned length word x lying values of 12 base messages, every string of length <= 4 (6 thorough) over the container alphabet as body signature and as variant signature against 6 hostile bodies, plus zero-size-element, deep-nesting, sibling-container, back-reference / negative-length and large lying-length families (every element type), are parsed by parseMessage and delivered to BasicDBusProtocol under a line-event budget affine in the input length; exceeding it, MemoryError, or a result larger than the input is a violation.',
+   text='Every truncation, every position x substitution set, every aligned length word x lying values of 12 base messages, every string of length <= 4 (6 thorough) over the container alphabet as body signature and as variant signature against 6 hostile bodies, plus zero-size-element, deep-nesting, sibling-container, back-reference / negative-length and large lying-length families (every element type), are parsed by parseMessage and delivered to BasicDBusProtocol under a line-event budget affine in the input length; exceeding it, MemoryError, or a result larger than the input is a violation. Header fields repeated m times in front of an m-element body (every field code, an unknown one) and growing bodies of 7 container shapes are measured at m and 4m: the work at 4m must stay within 5x the work at m.',
    note='Decides "bounded work" as "within 600000+100*len interpreter line events"; the constant covers the bracket matcher, which is quadratic in the (<=255 byte) signature. Which exception is raised is not compared.'),
  'C19': dict(engine=E1, ref='DESIGN.md 3/C19', technique='exhaustive enumeration of signatures from the grammar with their decomposition; exhaustive enumeration of Python values to depth 2 filtered by a reference claim predicate',
    text='Every signature sequence up to the node bound is generated together with its decomposition and compared with genCompleteTypes and the argument counts of Method/Signal; every Python value of depth <= 2, width <= 2 over 30 atoms (plain values and wrapper classes at range boundaries) inside the claim must get a single complete type, wrappers exactly theirs, and survive a variant round trip that the reference decoder can also read.',
@@ -40,34 +40,34 @@ CHECKS = {
    text='For 8 (10 thorough) call configurations (deadline order, declared return signature, reply and error shapes, no-reply calls) every interleaving of the events of 2-3 (4 thorough) concurrent calls is explored; after every event each Deferred must have fired exactly as the reference table says, the armed timers must equal the outstanding deadlines, and running the clock out plus late replies must change nothing.',
    note='Calls are issued in index order. Replies are real bytes through dataReceived.'),
  'C09': dict(engine=E2, ref='DESIGN.md 3/C09', technique='crash-point enumeration of connect() on a memory reactor; explicit-state BFS over calls/callbacks/proxies with connection loss injected in every reachable state',
-   text='Every address list up to 3 entries x every reachability vector x the transport closing after each server step of three conversation variants: attempt order and exactly-once firing of the connect Deferred; every list connected to twice with one reactor. For an established connection, all orders (to depth 4 for the full alphabet; to the fixpoint for the proxy and the call/callback sub-alphabets) of calls with/without deadlines, callback registration/cancellation, explicit/known-name/introspected proxies (two for one object, dropped ones) followed by the loss in every state.',
+   text='Every address list up to 3 entries x every reachability vector x the transport closing after each server step of three conversation variants: attempt order and exactly-once firing of the connect Deferred; every list connected to twice with one reactor. For an established connection, all orders (to depth 4 for the full alphabet; to the fixpoint for the proxy and the call/callback sub-alphabets) of calls with/without deadlines, callback registration/cancellation, explicit/known-name/introspected proxies (two for one object, dropped ones) followed by the loss in every state. The same callable registered twice / one registration of it cancelled is part of the event alphabet (connection and proxy).',
    note='Loss arrives as connectionLost(ConnectionDone); a dropped proxy is not live.'),
  'C13': dict(engine=E2, ref='DESIGN.md 3/C13', technique='explicit-state BFS to a fixpoint on a real Bus with scripted raw clients, step-compared with a reference name table, table read back through the bus after every step',
    text='(state = reference table + digest of every library object) All histories of RequestName (8 flag values), ReleaseName and disconnect by 3 clients on 1 name are explored to the fixpoint (and 2 clients x 2 names to depth 4; 4 clients / 3 clients x 2 names when thorough); after every step the reply code, the NameAcquired recipients and GetNameOwner / ListQueuedOwners for every name are compared with the reference table.',
    note='Where a replaced owner goes is left open (adopted from the bus); NameLost / NameOwnerChanged not compared.'),
  'C20': dict(engine=E2, ref='DESIGN.md 3/C20', technique='stateless exploration: exhaustive enumeration of interleavings of descriptor arrivals and reads (under cut sets) on the real receiver; exhaustive call sequences on the real sender',
-   text='Every sequence of up to 3 calls over 9 bodies is sent through callRemote and the transport log compared (descriptors in argument order ahead of the bytes, declared count, indexes). The same sequences, reference-encoded in both byte orders, are delivered under no cut / every single cut (pairs when thorough) (as calls and as returns / signals / errors) in every order of descriptor arrivals and reads a stream socket allows; a trailing probe message shows exactly the declared count was consumed.',
+   text='Every sequence of up to 3 calls over 9 bodies is sent through callRemote and the transport log compared (descriptors in argument order ahead of the bytes, declared count, indexes). The same sequences, reference-encoded in both byte orders, are delivered under no cut / every single cut (pairs when thorough) (as calls and as returns / signals / errors) in every order of descriptor arrivals and reads a stream socket allows; a trailing probe message shows exactly the declared count was consumed. Three received-only bodies hold descriptors inside variants (v, a{sv}h, hav).',
    note='Descriptors are plain integers on a fake transport; arrival model is the statement\'s.'),
  'C10': dict(engine=E2, ref='DESIGN.md 3/C10', technique='bounded-exhaustive enumeration of call histories (every ordered pair from a call pool, 4 export orders) on freshly built object classes; enumerated firing orders of held Deferreds; reference dispatcher',
    text='A pool of several hundred incoming calls (right/wrong path, interface, member, signature, reply flag; dbus_ and decorator bindings, one member on two interfaces, base/derived classes binding members of one interface, dbusCaller) is delivered as real bytes: every single call under 4 export orders and every ordered pair; replies are parsed by the reference parser and compared with a reference dispatcher (who runs, how often, reply count, addressing, serial, encoding, error names). Two held Deferreds are fired in both orders with value / failure / unencodable value.',
    note='History length 2. With no interface header any declaring interface may be chosen.'),
  'C11': dict(engine=E2, ref='DESIGN.md 3/C11', technique='stateless depth-first exploration of all delivery interleavings (plus bounded cuts) of the composed bus + clients system, one real execution per path',
-   text='A real Bus with 2-3 (4 thorough) real client connections joined by byte queues is brought up with real authentication, Hello, export, RequestName and proxy acquisition (explicit interface or introspection); then for 8 (10) scenarios of 2-3 concurrent proxy calls every delivery order of the queued chunks and every firing point of held Deferreds, plus up to 1 (2) cut inside a chunk, is executed and the results compared with what the exported methods returned or raised.',
+   text='A real Bus with 2-3 (4 thorough) real client connections joined by byte queues is brought up with real authentication, Hello, export, RequestName and proxy acquisition (explicit interface or introspection); then for 8 (10) scenarios of 2-3 concurrent proxy calls every delivery order of the queued chunks and every firing point of held Deferreds, plus up to 1 (2) cut inside a chunk, is executed and the results compared with what the exported methods returned or raised. Proxies are also obtained from lists of interface names in both orders with each subset of the names unknown locally (9 modes).',
    note='One chunk per transport write; all parties in one process.'),
  'C12': dict(engine=E1, ref='DESIGN.md 3/C12', technique='exhaustive enumeration of rule x message pairs against an independent matcher; explicit-state BFS over add/remove/route histories; rule-text round trip through an independent parser and the built-in bus',
-   text='Every rule with up to 3 (all 9 thorough) constraint keys, two values each, against ~1500 messages through the real router; BFS over addMatch/delMatch/signal histories on a real client connection (callbacks that raise, id reuse); the AddMatch text of every rule with up to 2 (3) keys parsed independently and fed to the built-in bus whose broadcasts must follow the matcher; proxy notifyOnSignal/cancelSignalNotification with matching and mismatching signatures.',
+   text='Every rule with up to 3 (all 9 thorough) constraint keys, two values each, against ~1500 messages through the real router; BFS over addMatch/delMatch/signal histories on a real client connection (callbacks that raise, id reuse); the AddMatch text of every rule with up to 2 (3) keys parsed independently and fed to the built-in bus whose broadcasts must follow the matcher; proxy notifyOnSignal/cancelSignalNotification with matching and mismatching signatures. One argument constraint (exact string and path) at every index 0..63 is checked through the router, the rule text and the built-in bus.',
    note='sender / arg0namespace constraints are outside the statement.'),
  'C14': dict(engine=E2, ref='DESIGN.md 3/C14', technique='explicit-state BFS over send / consume (whole or prefix) / name-takeover / match-rule / disconnect events on a real Bus with scripted raw clients against a reference bus',
-   text='Three raw clients (state = reference bus + digest of every library object); name take-over, queueing and release; 12 message templates (all types, every destination kind, forged / true / absent sender, flag bits); outbound queues let the bus consume messages in every order relative to ownership changes, rule changes and a disconnect, whole or prefix-first. Every arriving message is parsed by the strict reference parser and compared with the reference bus. A second search covers connect/disconnect histories for fresh unique names.',
+   text='Three raw clients (state = reference bus + digest of every library object); name take-over, queueing and release; 12 message templates (all types, every destination kind, forged / true / absent sender, flag bits); outbound queues let the bus consume messages in every order relative to ownership changes, rule changes and a disconnect, whole or prefix-first. Every arriving message is parsed by the strict reference parser and compared with the reference bus. A second search covers connect/disconnect histories for fresh unique names. A further search runs bus-addressed messages of all four types under catch-all rules (empty rule, type=\'method_call\', destination=\'org.freedesktop.DBus\'); a client\'s own calls to the bus must show up nowhere else.',
    note='Depth 4 quick / 6 thorough; >= 1 copy demanded for broadcasts.'),
  'C15': dict(engine=E1, ref='DESIGN.md 3/C15', technique='bounded-exhaustive enumeration of interface definitions; XML checked by an independent parser and the reference signature splitter; parse-back comparison; proxy acceptance',
    text='Every (in, out) pair of a pool of 40 (more thorough) signature sequences as a method, every signal, every property type x access x notification, fuller interfaces, and objects with 2-3 interfaces in every order x every subset registered locally x replace flag (each parsed repeatedly in one process, registry checked), and definitions built incrementally (add / re-declare / delete) with the XML read after every step.',
    note='Notification mode after parsing not compared.'),
  'C16': dict(engine=E2, ref='DESIGN.md 3/C16', technique='explicit-state BFS over export/unexport histories (all 128 exported sets reached; plus undeduplicated histories), every path queried after every step',
-   text='After every export/unexport over a 7-path universe with prefix-sharing siblings, each path and two outsiders are queried with real call bytes (ordinary call, Introspect, GetManagedObjects) and compared with the set-theoretic reference; each event must announce itself with exactly one InterfacesAdded/Removed.',
+   text='After every export/unexport over a 7-path universe with prefix-sharing siblings, each path and two outsiders are queried with real call bytes (ordinary call, Introspect, GetManagedObjects) and compared with the set-theoretic reference; each event must announce itself with exactly one InterfacesAdded/Removed. A second pass adds the event \'export another object at an occupied path\'.',
    note='Export only of unexported paths, unexport only of exported ones.'),
  'C17': dict(engine=E2, ref='DESIGN.md 3/C17', technique='explicit-state BFS over local assignments and remote Set calls on two objects (base/derived, same-named property on two interfaces), full read-back through Get/GetAll after every step against a reference store',
-   text='12 property declarations over 3 interfaces on three objects (two instances of the base class, one read before assigned, and a derived one); values include foreign typed wrappers; every assignment and every Set (right / empty / other interface name, unknown property) to depth 2 (3), both class initialisation orders; after every event the Set reply, the PropertiesChanged signals and the whole table read back through GetAll and Get under right / empty / unknown interface names.',
+   text='12 property declarations over 3 interfaces on three objects (two instances of the base class, one read before assigned, and a derived one); values include foreign typed wrappers; every assignment and every Set (right / empty / other interface name, unknown property) to depth 2 (3), both class initialisation orders; after every event the Set reply, the PropertiesChanged signals and the whole table read back through GetAll and Get under right / empty / unknown interface names. Interface names that are a proper prefix or an extension of a declared one must behave as unknown in Get and GetAll.',
    note='Ambiguous empty-interface access may choose either declaration; wrongly typed Sets are outside the statement.'),
 }
 
